@@ -12,6 +12,7 @@ import (
 	"encoding/json"
 	"errors"
 	"fmt"
+	"io"
 	"math/rand/v2"
 	"strings"
 	"testing"
@@ -49,14 +50,18 @@ type Op struct {
 }
 
 type Plan struct {
-	Profile    string `json:"profile"`
-	Fails      int    `json:"fails"`               // first stream creations that fail
-	ErrKinds   int    `json:"err_kinds,omitempty"` // > 0: every failure has another concrete error type
-	BlockFirst bool   `json:"block_first"`         // creation blocks until OpUnblock
-	Deadline   int    `json:"deadline_ms"`         // 0 none
-	Concurrent bool   `json:"concurrent"`
-	Strategy   int    `json:"strategy"`
-	EarlyProbe bool   `json:"early_probe"` // probes before the stream exists are allowed
+	Profile  string `json:"profile"`
+	Fails    int    `json:"fails"`               // first stream creations that fail
+	ErrKinds int    `json:"err_kinds,omitempty"` // > 0: every failure has another concrete error type
+	// the n-th send / receive that reaches the underlying stream fails there (0: none)
+	SendErrAt  int  `json:"send_err_at,omitempty"`
+	SendErrEOF bool `json:"send_err_eof,omitempty"`
+	RecvErrAt  int  `json:"recv_err_at,omitempty"`
+	BlockFirst bool `json:"block_first"` // creation blocks until OpUnblock
+	Deadline   int  `json:"deadline_ms"` // 0 none
+	Concurrent bool `json:"concurrent"`
+	Strategy   int  `json:"strategy"`
+	EarlyProbe bool `json:"early_probe"` // probes before the stream exists are allowed
 	// Chain: the stream's context derives from the context an earlier intercepted
 	// unary call handed to its invoker (an application tying calls together)
 	Chain bool `json:"chain,omitempty"`
@@ -83,13 +88,23 @@ func Generate(r *rand.Rand, profile string, concurrent bool, avoid map[string]bo
 			p.ErrKinds = 1 + r.IntN(6)
 		}
 	}
+	if r.IntN(4) == 0 {
+		p.SendErrAt = 1 + r.IntN(3)
+		if r.IntN(2) == 0 {
+			p.SendErrAt = 1 // the message that created the stream
+		}
+		p.SendErrEOF = r.IntN(3) == 0
+	}
+	if r.IntN(6) == 0 {
+		p.RecvErrAt = 1 + r.IntN(3)
+	}
 	p.BlockFirst = r.IntN(3) == 0
 	p.Chain = r.IntN(4) == 0
 	if r.IntN(3) == 0 {
 		p.Deadline = []int{5, 20, 100}[r.IntN(3)]
 	}
 	if concurrent {
-		p.Strategy = r.IntN(4)
+		p.Strategy = r.IntN(6) // 0 random walk, 1-3 PCT depth, 4-5 one long stall
 	}
 	p.EarlyProbe = !avoid["early_probe"] || r.IntN(4) == 0
 	if avoid["no_early_probe"] {
@@ -145,7 +160,15 @@ type rec struct {
 	task int
 	msg  interface{}
 	seq  int
+	err  error // what the underlying stream answered
 }
+
+// Errors of the underlying stream (built at package initialisation, see
+// creationErrTable): a send that fails for good, and the end of the stream.
+var (
+	errUnderSend = status.Error(codes.ResourceExhausted, "underlying stream: message larger than max")
+	errUnderRecv = status.Error(codes.Unavailable, "underlying stream: transport is closing")
+)
 
 type fakeCS struct {
 	s   *sim
@@ -155,15 +178,30 @@ type fakeCS struct {
 //go:norace
 func (f *fakeCS) SendMsg(m interface{}) error {
 	f.s.k.Yield("fake:SendMsg")
-	f.s.reached = kern.Push(f.s.reached, rec{kind: "send", task: curTask(f.s), msg: m, seq: len(f.s.reached)})
-	return nil
+	var err error
+	f.s.nUnderSend++
+	if k := f.s.plan.SendErrAt; k > 0 && f.s.nUnderSend == k {
+		err = errUnderSend
+		if f.s.plan.SendErrEOF {
+			err = io.EOF
+		}
+		f.s.nUnderErr++
+	}
+	f.s.reached = kern.Push(f.s.reached, rec{kind: "send", task: curTask(f.s), msg: m, seq: len(f.s.reached), err: err})
+	return err
 }
 
 //go:norace
 func (f *fakeCS) RecvMsg(m interface{}) error {
 	f.s.k.Yield("fake:RecvMsg")
-	f.s.reached = kern.Push(f.s.reached, rec{kind: "recv", task: curTask(f.s), msg: m, seq: len(f.s.reached)})
-	return nil
+	var err error
+	f.s.nUnderRecv++
+	if k := f.s.plan.RecvErrAt; k > 0 && f.s.nUnderRecv == k {
+		err = errUnderRecv
+		f.s.nUnderErr++
+	}
+	f.s.reached = kern.Push(f.s.reached, rec{kind: "recv", task: curTask(f.s), msg: m, seq: len(f.s.reached), err: err})
+	return err
 }
 
 //go:norace
@@ -218,6 +256,9 @@ type sim struct {
 	keyCtx          struct{}
 	nBlocks, nFails int
 	nErrKinds       int
+	nUnderSend      int
+	nUnderRecv      int
+	nUnderErr       int
 	hintOp          int
 	hintN           uint64
 }
@@ -835,10 +876,20 @@ func (s *sim) order() {
 			continue
 		}
 		n := 0
+		var under error
 		for _, r := range s.reached {
 			if sameMsg(r.msg, po.msg) {
 				n++
+				under = r.err
 			}
+		}
+		if n == 1 && under != nil {
+			// the underlying stream failed this operation: delegating means reporting it
+			if po.err == nil {
+				s.vio("C12", "op-error-swallowed", po.kind, fmt.Sprintf("%s returned nil although the underlying stream answered %v", po.kind, under))
+				return
+			}
+			continue
 		}
 		if po.err == nil && n != 1 {
 			s.vio("C12", "op-not-delegated", po.kind, fmt.Sprintf("%s returned nil but reached the underlying stream %d times", po.kind, n))
@@ -899,6 +950,7 @@ func (s *sim) finish() {
 	s.res.Count("fault:stream_creation_blocks", s.nBlocks)
 	s.res.Count("fault:stream_creation_fails", s.nFails)
 	s.res.Count("fault:stream_creation_error_types_vary", s.nErrKinds)
+	s.res.Count("fault:underlying_stream_operation_fails", s.nUnderErr)
 	s.res.States = append(s.res.States, uint64(s.created)<<8|uint64(s.attempts)<<4|uint64(len(s.reached)))
 }
 
@@ -953,6 +1005,9 @@ func (Engine) Strategy(p simkit.Plan, r *rand.Rand) simkit.Strategy {
 	if !pl.Concurrent || pl.Strategy == 0 {
 		return &simkit.RandomWalk{R: simkit.NewSM64(r.Uint64()), Stick: 0.6, Mix: 0.5}
 	}
+	if pl.Strategy >= 4 {
+		return simkit.NewStall(simkit.NewSM64(r.Uint64()), 4+len(pl.Ops), 28, 0.7, 0.5)
+	}
 	return simkit.NewPCT(simkit.NewSM64(r.Uint64()), pl.Strategy, 30+len(pl.Ops)*8, 0.5)
 }
 
@@ -985,6 +1040,8 @@ func (Engine) Simplify(p simkit.Plan) []simkit.Plan {
 	add(func(c *Plan) bool { ch := c.Fails > 0; c.Fails = 0; return ch })
 	add(func(c *Plan) bool { ch := c.Fails > 1; c.Fails--; return ch })
 	add(func(c *Plan) bool { ch := c.ErrKinds > 0; c.ErrKinds = 0; return ch })
+	add(func(c *Plan) bool { ch := c.SendErrAt > 0; c.SendErrAt = 0; return ch })
+	add(func(c *Plan) bool { ch := c.RecvErrAt > 0; c.RecvErrAt = 0; return ch })
 	add(func(c *Plan) bool { ch := c.BlockFirst; c.BlockFirst = false; return ch })
 	add(func(c *Plan) bool { ch := c.Deadline > 0; c.Deadline = 0; return ch })
 	for i, o := range pl.Ops {
